@@ -104,7 +104,7 @@ Definition enc_spec (r : option (list config * list string)) : data :=
 
 Definition load_table (user : list (string * udef)) : table := merge_user builtin_table user.
 
-(* case: (user cmds) ; answer: per command (status_M result_M status_S result_S status_legacy result_legacy rules_conflict) *)
+(* case: (user cmds) ; answer: per command (status_M result_M status_S result_S status_legacy result_legacy) *)
 Definition run_C12 (d : data) : data :=
   match d with
   | DList [u; cs] =>
@@ -116,8 +116,7 @@ Definition run_C12 (d : data) : data :=
           let s := map (spec_cmd t) cmds in
           DList (map (fun x => match x with (mm, ll, ss) =>
                    DList [enc_status (fst mm); enc_res (snd mm); enc_status (fst ss); enc_spec (snd ss);
-                          enc_status (fst ll); enc_res (snd ll);
-                          of_bool (rules_conflict (compiler_of t (fst ss)))] end)
+                          enc_status (fst ll); enc_res (snd ll)] end)
                      (combine (combine m l) s))
       | _, _ => bad_case
       end
